@@ -314,3 +314,27 @@ package tree
 //@   loop 0 invariant $n >= 1 ==> namespaces[0] == utils.GetNamespaceFromGetSchema(nsSchema(a))
 //@   loop 0 invariant $n >= 2 ==> namespaces[1] == utils.GetNamespaceFromGetSchema(nsSchema(b))
 //@   loop 0 invariant unchanged(allelems(string))
+
+// ---------------------------------------------------------------------------
+// C08: the priority a case member holds among the stored intents is the best one over the whole branch below it
+
+//@ extern strings.HasPrefix
+//@   pure
+//@ extern strings.Join
+//@   pure
+
+// assumed deterministic and effect free (applies caller supplied filter closures)
+//@ func (UpdateSlice).GetLowestPriorityValue
+//@   trusted applies caller supplied filter closures; treated as a function of the slice and the filters
+//@   pure
+
+//@ func (*TreeCacheClientImpl).GetBranchesHighesPrecedence
+//@   props C08
+//@   requires c != nil && c.intendedStoreIndex != nil
+//@   let idx = c.intendedStoreIndex
+//@   let pk = strings.Join(path, KeysIndexSep)
+//@   ensures whole_branch_lower_bound: allstr(k, present(idx, k) && strings.HasPrefix(k, pk) ==> result <= idx[k].GetLowestPriorityValue(filters))
+//@   ensures attained_in_branch: result == 2147483647 || exstr(k, present(idx, k) && strings.HasPrefix(k, pk) && idx[k].GetLowestPriorityValue(filters) == result)
+//@   loop 0 invariant $map == idx && result <= 2147483647
+//@   loop 0 invariant allstr(k, $visited[k] && strings.HasPrefix(k, pk) ==> result <= idx[k].GetLowestPriorityValue(filters))
+//@   loop 0 invariant result == 2147483647 || exstr(k, $visited[k] && present(idx, k) && strings.HasPrefix(k, pk) && idx[k].GetLowestPriorityValue(filters) == result)
